@@ -46,6 +46,11 @@ def gen(rng, tier):
         feats = []
         while not feats:
             feats = G.gtf_annotation(rng, {"max_genes": 2})
+    if rng.random() < 0.25:
+        # attribute values with characters that are line boundaries for str.splitlines() but not for a file
+        for f in feats:
+            if rng.random() < 0.5:
+                f["attrs"].append(["odd", [rng.choice(["a\u2028b", "x\x85y", "p\u2029q", "v\x1cw"])]])
     n = len(feats)
     tr = rng.choice([None, None, {"kind": "identity"}, {"kind": "tag", "key": "tag", "val": "x"}, {"kind": "shift", "by": 3},
                      {"kind": "drop_type", "type": rng.choice(["exon", "gene", "CDS"]), "falsy": rng.choice(["none", "false"])},
